@@ -385,9 +385,8 @@ RULES = {
     "R34": [(".map(ToString::to_string)", ".vmap_to_string()"),
             (".map(str::trim)", ".vmap_trim()")],
     # R35: `writeln!` on the error channel's sinks (util.rs) -> shims with permissions and token facts
-    "R35": [('writeln!(std::io::stderr(), "{s}")', "vwriteln_stderr(s)"), ('writeln!(std::io::stdout(), "{s}")', "vwriteln_stdout(s)"),
-            ('writeln!(std::io::stderr(), "Can\'t open error output file, caused by: {e}")', "vwriteln_stderr_note()"),
-            ('writeln!(file, "{s}")', "vwriteln_file(&mut file, s)")],
+    # (computed: any other text written to stderr is the note that accompanies a failing error file)
+    "R35": [('writeln!(std::io::stdout(), "{s}")', "vwriteln_stdout(s)"), ('writeln!(file, "{s}")', "vwriteln_file(&mut file, s)")],
     # R36: `err: &dyn std::error::Error` (eprint_err's type-erased argument, only formatted) -> the opaque shim `&VDynError`;
     # R37: the one call inside util.rs that passes `&e` (a PoisonError) -> `vdyn(&e)`
     "R36": [("&dyn std::error::Error", "&VDynError")],
@@ -399,6 +398,10 @@ RULES = {
     # shapes of `write!(f, ..)` used there -> shim methods: `write!(f, "{}", e)` -> `f.vwrite(e.as_str())`, `write!(f, "<literal>")` ->
     # `f.vwrite("<literal>")`, `write!(f, "{name} = {}", e)` -> `f.vwrite3(name, " = ", e.as_str())`
     "R40": [("std::fmt::Formatter<'_>", "VFormatter")],
+    # R44: the error channel's lock (unit errchan): `.read()` -> `.vread_held()` (establishes the token "a read guard of the channel lock has
+    # been taken in this call"), `.write()` -> `.vwrite_free()` (requires that none has: std's RwLock deadlocks / panics on a write lock
+    # taken by the thread that holds a read guard)
+    "R44": [(".read()", ".vread_held()"), (".write()", ".vwrite_free()")],
     # R43 (computed + literal): check_timestamp_format: chrono's delayed formats -> opaque shims that remember how they were made, and
     # `write!(infix, "{}", <e>)` -> `vwrite_display(&mut infix, &(<e>))`
     "R43": [("now.naive_utc().format(format)", "vfmt_naive(format)"), ("now.format(format)", "vfmt_local(format)"),
@@ -517,6 +520,20 @@ def apply_rule(sf, a, b, rule, edits):
                 edits.replace(tail[0], tail[3] + 1, [Piece("")])
                 hits += 1
         return hits
+    if rule == "R35":
+        T = lambda q: toks[sigidx[q]]
+        pat = ["writeln", "!", "(", "std", ":", ":", "io", ":", ":", "stderr", "(", ")", ","]
+        for p in range(len(sigidx) - len(pat) - 1):
+            if [T(p + q).text for q in range(len(pat))] == pat and T(p + len(pat)).kind == "str":
+                close = sf.br[sigidx[p + 2]]
+                lit = T(p + len(pat)).text
+                rep = "vwriteln_stderr(s)" if lit == '"{s}"' else "vwriteln_stderr_note()"
+                try:
+                    edits.replace(sigidx[p], close + 1, [Piece(rep, sf, T(p).start)])
+                    hits += 1
+                except ExtractError:
+                    pass
+        # the literal patterns of the rule follow
     if rule == "R43":
         T = lambda q: toks[sigidx[q]]
         for p in range(len(sigidx) - 7):
@@ -1140,6 +1157,7 @@ class Directive:
         self.execconst = None
         self.derivedefault = False
         self.unmodelled = []
+        self.onlyif = []
 
 
 def indent_of(sf, tokidx):
@@ -1681,6 +1699,26 @@ def render_item(d, it, repo_root, registry):
         sigidx = [k for k in range(it.body_open or a, it.body_close or b) if toks[k].kind not in TRIVIA]
         if any([toks[sigidx[p + q]].text for q in range(len(want))] == want for p in range(len(sigidx) - len(want) + 1)):
             unmodelled_hits.append({"construct": txt, "clauses": labels})
+    for txt, labels in getattr(d, "onlyif", []):
+        # the inverse of `unmodelled`: the listed clauses are decisive only while the body HAS the token sequence
+        whole = txt.startswith("^")
+        want = [t.text for t in lex(txt.lstrip("^")) if t.kind not in TRIVIA]
+        sigidx = [k for k in range(it.body_open or a, it.body_close or b) if toks[k].kind not in TRIVIA]
+        if whole:
+            # `^<tokens>`: the body IS one block expression that starts with the tokens (nothing before it, nothing after its block)
+            okw = it.body_open is not None and [toks[k].text for k in sigidx[1:1 + len(want)]] == want
+            if okw:
+                q = 1 + len(want)
+                while q < len(sigidx) and toks[sigidx[q]].text != "{":
+                    if toks[sigidx[q]].text in "([" and sigidx[q] in sf.br:
+                        q = sigidx.index(sf.br[sigidx[q]]) if sf.br[sigidx[q]] in sigidx else len(sigidx)
+                    q += 1
+                okw = q < len(sigidx) and sf.br.get(sigidx[q]) is not None and sf.next_sig(sf.br[sigidx[q]] + 1) == it.body_close
+            if not okw:
+                unmodelled_hits.append({"construct": "(the body is no longer the single expression) " + txt.lstrip("^"), "clauses": labels})
+            continue
+        if not any([toks[sigidx[p + q]].text for q in range(len(want))] == want for p in range(len(sigidx) - len(want) + 1)):
+            unmodelled_hits.append({"construct": "(no longer present) " + txt, "clauses": labels})
     if pre:
         ed.insert_before(it.first, pre)
     audit = {}
@@ -1741,7 +1779,7 @@ def render_item(d, it, repo_root, registry):
     return out
 
 
-OPTION_KW = ("ret", "req", "ens", "props", "loop", "closure", "rule", "attr", "dropattr", "canary", "rename", "prefix", "from", "upto", "uptosemi", "before", "tail", "toend", "block", "blocknth", "bytesconst", "count", "execconst", "derivedefault", "unmodelled")
+OPTION_KW = ("ret", "req", "ens", "props", "loop", "closure", "rule", "attr", "dropattr", "canary", "rename", "prefix", "from", "upto", "uptosemi", "before", "tail", "toend", "block", "blocknth", "bytesconst", "count", "execconst", "derivedefault", "unmodelled", "onlyif")
 _lab_re = re.compile(r"^(req|ens|inv)(\[([^\]]+)\])?\s+(.*)$", re.S)
 
 
@@ -1873,6 +1911,11 @@ def parse_options(d, lines, unit_name):
             # the other clauses of the function stay decisive
             txt, labels = rest.split("##")
             d.unmodelled.append((txt.strip(), labels.split()))
+        elif w == "onlyif":
+            # `onlyif <token text> ## <label> ..`: the listed clauses rest on a shape of the body (e.g. a lock guard that lives as the
+            # temporary of a `match` scrutinee); when the token sequence is gone, their failure is reported UNDECIDED
+            txt, labels = rest.split("##")
+            d.onlyif.append((txt.strip(), labels.split()))
         elif w == "derivedefault":
             # for an enum with `#[derive(Default)]`: emit `impl Default` whose value is the variant the source marks `#[default]`
             d.derivedefault = True
